@@ -20,6 +20,7 @@ mod posix;
 mod prng;
 mod refmodel;
 mod scn;
+mod seam;
 mod shrink;
 mod spec;
 mod statics;
@@ -463,6 +464,7 @@ fn main() {
     }
     exec::install_panic_hook();
     statics::init();
+    seam::init();
     let mut ex = world::sync_static_ranges();
     ex.push(exec::shared_static_range());
     statics::exclude(ex);
